@@ -135,7 +135,15 @@ def run(rep, crate, cfg):
                             touched = True
         if touched:
             users.append(f)
-    lockers = [f for f in crate.fns.values() if any((t.get("callee") or "").endswith("Mutex::<T>::lock") for _, t in f.calls())]
+    # wrappers that return with the lock held (a function whose return type is the guard) acquire the lock for their caller;
+    # the functions that HOLD critical sections are those with a guard local that do not hand it on
+    def returns_guard(f):
+        t0 = f.locals[0]["ty"] if f.locals else {}
+        return t0.get("k") == "adt" and t0.get("adt", "").endswith("MutexGuard")
+    acquirers = [f for f in crate.fns.values() if returns_guard(f)]
+    lockers = [f for f in crate.fns.values() if not returns_guard(f) and f.f["kind"] in ("Fn", "AssocFn") and sections(f)]
+    rep.floor(R1, sum(1 for f in list(crate.fns.values()) if any((t.get("callee") or "").endswith("Mutex::<T>::lock") for _, t in f.calls())),
+              1, "calls of Mutex::lock in the crate", cfg)
     rep.floor(R1, len(lockers), 1, "functions that lock the cache mutex", cfg)
     for f in users:
         derived = bool(f.f.get("impl_derived"))
@@ -155,7 +163,7 @@ def run(rep, crate, cfg):
         graph[k] = outs
     targets = {k for k in crate.fns if k.endswith("SourceBlockEncodingPlan::generate") or "fused_inverse_mul_symbols" in k
                or k.endswith("gen_intermediate_symbols")}
-    targets |= {f.key for f in lockers}
+    targets |= {f.key for f in lockers} | {f.key for f in acquirers}
     reach_t = set(targets)
     changed = True
     while changed:
